@@ -106,3 +106,29 @@ Definition untok_list (t : bytes) : option (list bytes) :=
   | ["."%char] => Some []
   | _ => sequence_opt (map untok_bytes (split_on ","%char t))
   end.
+
+From Coq Require Import ZArith.
+Definition dec_of_Z (z : Z) : bytes :=
+  if (z <? 0)%Z then "-"%char :: dec_of_N (Z.abs_N z) else dec_of_N (Z.to_N z).
+Definition Z_of_dec (s : bytes) : option Z :=
+  match s with
+  | "-"%char :: r => option_map (fun n => Z.opp (Z.of_N n)) (N_of_dec r)
+  | _ => option_map Z.of_N (N_of_dec s)
+  end.
+Definition untok_listZ (t : bytes) : option (list Z) :=
+  match t with
+  | ["."%char] => Some []
+  | _ => sequence_opt (map Z_of_dec (split_on ","%char t))
+  end.
+Definition untok_words (t : bytes) : list bytes :=
+  match t with
+  | ["."%char] => []
+  | _ => split_on ","%char t
+  end.
+Definition tok_bool (b : bool) : bytes := if b then ["1"%char] else ["0"%char].
+Definition untok_bool (t : bytes) : option bool :=
+  match t with
+  | ["1"%char] => Some true
+  | ["0"%char] => Some false
+  | _ => None
+  end.
